@@ -227,6 +227,31 @@ func VerifC19_Diff() {
 		}
 		vx.Assert("compare-in-diff", in)
 	}
+	// the same trees held as gen nodes
+	if vx.Param("GEN", 1) == 1 {
+		ga, gb := Generify(a), Generify(b)
+		var gd []Path
+		var gcmp Path
+		pan := vx.Catch(func() {
+			gd = Diff(ga, gb, ignores...)
+			gcmp = Compare(ga, gb, ignores...)
+		})
+		vx.Assert("no-panic:gen", !pan)
+		if !pan {
+			same := len(gd) == len(diffs)
+			for _, d := range gd {
+				in := false
+				for _, e := range diffs {
+					if vref.SamePath(pathOf(d), pathOf(e)) {
+						in = true
+					}
+				}
+				same = same && in
+			}
+			vx.Assert("gen-diff-equals-simple-diff", same)
+			vx.Assert("gen-compare-nil-iff-diff-empty", (gcmp == nil) == (len(gd) == 0))
+		}
+	}
 	vx.Cover("equal", len(diffs) == 0)
 	vx.Cover("different", len(diffs) > 0)
 }
